@@ -54,6 +54,8 @@ VARIABLES conn,   \* cid -> [st, ntf, tell, mtold, strong, permits, cmdq, pend]
 vars == <<conn, pch, open_, mch, mgr, svc, next, nst, nsub, mon, kf, hist>>
 
 P == Q \cup QD
+NoFix == {}
+AllFix == {"error-exit-silent", "stale-protocol-map"}
 Me == "A"
 NewC == [st |-> "accepting", ntf |-> {}, tell |-> {}, mtold |-> FALSE, strong |-> {}, permits |-> 0,
          cmdq |-> <<>>, pend |-> {}]
@@ -71,6 +73,12 @@ Init ==
   /\ kf = {} /\ hist = <<>>
 
 Room(q) == Len(pch[q]) < Cap
+\* FuturesUnordered over the protocols: sends to different live protocols commute (nothing observes
+\* their relative order), so live protocols are served in one canonical order; a protocol whose
+\* receiver is gone may be hit at any point (it decides which protocols were already served)
+POrder == <<"q1", "q2", "q3">>
+FirstOf(S) == POrder[Min({i \in 1..3 : POrder[i] \in S})]
+Turn(q, rest) == IF ~open_[q] THEN TRUE ELSE q = FirstOf({x \in rest : open_[x]})
 \* a strong sender of the connection's command channel exists: an Active handle of a protocol,
 \* a permit travelling with a pending open / an undelivered SubstreamOpened event
 HasStrong(c) == conn[c].strong # {} \/ conn[c].permits > 0
@@ -104,7 +112,7 @@ Connect(k) ==   \* k = 1: one connection, k = 2: simultaneous dials
 
 \* the future returned by TcpTransport::accept(): FuturesUnordered of sends, in any order
 AcceptStep(c, q) ==
-  /\ conn[c].st = "accepting" /\ q \in P \ conn[c].ntf
+  /\ conn[c].st = "accepting" /\ q \in P \ conn[c].ntf /\ Turn(q, P \ conn[c].ntf)
   /\ IF ~open_[q] THEN
         IF "stale-protocol-map" \in Fixed
           THEN /\ conn' = [conn EXCEPT ![c].ntf = @ \cup {q}]
@@ -268,7 +276,7 @@ TAllDropped(c) ==
 \* report_connection_closed: every protocol (any order, a send blocks on a full channel, a dropped
 \* receiver is only logged), then the manager
 TellProto(c, q) ==
-  /\ conn[c].st = "closing" /\ q \in conn[c].tell
+  /\ conn[c].st = "closing" /\ q \in conn[c].tell /\ Turn(q, conn[c].tell)
   /\ IF ~open_[q] THEN
         IF Mutant = "stop-on-proto-error" THEN conn' = [conn EXCEPT ![c].st = "exited", ![c].tell = {}] /\ UNCHANGED pch
         ELSE conn' = [conn EXCEPT ![c].tell = @ \ {q}] /\ UNCHANGED pch
@@ -328,7 +336,7 @@ Quiesce ==
 \* it is connected
 Redial ==
   /\ nst < MaxStim /\ Quiescent /\ hist # <<>> /\ hist[Len(hist)].a = "quiesce"
-  /\ Obs([e |-> "redial", n |-> Me, ok |-> mgr.pri = 0, attempted |-> mgr.pri = 0])
+  /\ Obs([e |-> "redial", n |-> Me, ok |-> mgr.pri = 0, attempted |-> mgr.pri = 0, clean |-> TRUE])
   /\ Stim([a |-> "redial"])
   /\ UNCHANGED <<conn, pch, open_, mch, mgr, svc, next, nsub, kf>>
 
@@ -364,6 +372,9 @@ NoStuck == (\E c \in Cids : ~Dead(c)) \/ ~Drained =>
 \* protocols are told before the manager (action property)
 ProtocolsBeforeManager ==
   [][\A c \in Cids : (c \in DOMAIN conn' /\ ~conn[c].mtold /\ conn'[c].mtold) => conn[c].tell = {}]_vars
+
+\* (self-test) the tagged defect paths are reachable
+NoKf == kf = {}
 
 View == <<conn, pch, open_, mch, mgr, svc, next, nst, nsub, mon, kf>>
 Emit == PrintT(<<"B", ToJson([stims |-> hist'])>>)
